@@ -369,16 +369,18 @@ where
         worker_hint: Option<WorkerId>,
         worker_pool: &HashMap<WorkerId, WorkerProperties<TKey, TMsg>>,
     ) -> Option<WorkerId> {
-        // check sticky first
+        // check sticky first. A worker also owns a key while a job of that key is only pending on it
+        // (e.g. retained for its replacement after the hand-over to a dead worker failed), otherwise
+        // the next job of the key would start elsewhere while the retained one is still to run
         if let Some(worker) = worker_hint.and_then(|worker| worker_pool.get(&worker)) {
-            if worker.is_processing_key(&job.key) {
+            if worker.has_pending_key(&job.key) {
                 return worker_hint;
             }
         }
 
         let maybe_worker = worker_pool
             .iter()
-            .find(|(_, worker)| worker.is_processing_key(&job.key))
+            .find(|(_, worker)| worker.has_pending_key(&job.key))
             .map(|(a, _)| *a);
         if maybe_worker.is_some() {
             return maybe_worker;
